@@ -787,6 +787,43 @@ def reach_under(fn, env, dst_pred, avoid_pred, max_states=20000):
     return None
 
 
+def cycle_under(fn, head, env, max_states=20000):
+    """Can control return to the CFG position `head` (block, index) after leaving it, when the condition atoms in env are fixed?  The walk
+    follows only edges not refuted by env (see reach_under).  Returns the blocks of a witness cycle or None."""
+    hb, hi = head
+    start_blk = fn.blocks[hb]
+    work = []
+    seen = set()
+    # leave the head element, continue in its block, then follow successors
+    for s_ in _edges_under(fn, start_blk, env):
+        work.append((s_, (hb, s_)))
+    while work:
+        b, path = work.pop()
+        if b is None:
+            continue
+        if b == hb:
+            return list(path)
+        if b in seen:
+            continue
+        seen.add(b)
+        if len(seen) > max_states:
+            return list(path)
+        blk = fn.blocks[b]
+        if blk.noreturn or b == fn.exit:
+            continue
+        stop = False
+        for e in blk.raw_elems:
+            n = elem_node(fn, e)
+            if n is not None and n.get("k") == "return":
+                stop = True
+                break
+        if stop:
+            continue
+        for s_ in _edges_under(fn, blk, env):
+            work.append((s_, path + (s_,)))
+    return None
+
+
 def returns_under(fn, env, max_states=20000):
     """the `return` statements reachable from the entry when the atoms in env have the given truth values (see reach_under)."""
     out = []
